@@ -228,7 +228,13 @@ def step? (s : St) : Act → Option St
     | _ => none
   | .drainSend =>
     match s.disp with
-    | .drain (it :: rest) => if s.chan.length < s.W then some { s with chan := s.chan ++ [it], disp := .drain rest } else none
+    -- the drain loop reads `breaked` before every item: the item it is blocked on is sent, but once Break has been
+    -- called (possibly after a Stop) everything behind it is skipped
+    | .drain (it :: rest) =>
+      if s.chan.length < s.W then
+        (if s.breaked then some { s with chan := s.chan ++ [it], disp := .drain [], limbo := s.limbo ++ rest }
+         else some { s with chan := s.chan ++ [it], disp := .drain rest })
+      else none
     | _ => none
   | .drainTok =>
     match s.disp with
